@@ -1,6 +1,8 @@
 #!/usr/bin/env python3
 """print a markdown table of /verif/seeded/*/meta.json (which checks catch which independently written changes)"""
 import glob, json, os
+# "expected, not run": the check was strengthened after reading the change's description and before its first run, so the first-run
+# verdict is what the unstrengthened check would have given by construction, not an observed one.
 # verdict of the FIRST run of the then-registered check against the change, where it differed from the final one, and what was
 # changed in the machinery afterwards (hand-maintained; the final verdict column is regenerated from seeded/*/meta.json)
 FIRST = {
@@ -11,10 +13,10 @@ FIRST = {
     "C08-type-from-family-name": "exit 0 (render had no contract) -> render state machine contract",
     "C07-global-label-sanitised-at-config": "exit 0 (configuration side unclaimed) -> contract on add_global_label",
     "C18-peer-addr-expect-kills-listener": "exit 0 (serving clauses unclaimed) -> serve.verus.rs",
-    "C11-partial-write-tail-requeued": "exit 0 (conservation alone holds for a re-queued remainder) -> is_suffix clause on the queue",
+    "C11-partial-write-tail-requeued": "exit 0 expected, not run (conservation alone holds for a re-queued remainder) -> is_suffix clause on the queue",
     "C11-drop-oldest-counts-parked-buffer": "exit 0 (run_transport had no boundary) -> fan-out body lifted (R29) and contracted",
     "C16-drain-drop-subtracts-instead-of-reset": "exit 0 (sequential harnesses only) -> late-push interleaving harness",
-    "C16-fastrand-inclusive-range": "exit 0 (fastrand itself was a trusted stub) -> fastrand.verus.rs",
+    "C16-fastrand-inclusive-range": "exit 0 expected, not run (fastrand itself was a trusted stub) -> fastrand.verus.rs",
     "C01-panicking-drop-clears-instead-of-restoring": "exit 0 (Kani does not unwind; thread::panicking() is constant false) -> Drop contract re-proved with panicking() stubbed to true",
     "C01-computed-name-key-cached-per-callsite": "exit 0 expected (each call site was executed once per harness) -> call-site-twice harness, added after reading the change's summary and before its run",
     "C05-quiesce-head-block-only": "exit 0 (bucket level was unreachable for Kani) -> epoch stubs (pin, decompose_tag, snooze) and designed-state bucket harnesses",
@@ -25,8 +27,8 @@ FIRST = {
     "C13-router-raw-ancestor": "exit 0 (Kani could not stub get_ancestor and ran the real trie in two trivial states) -> glue.verus.rs contract on Router::route with the documented contracts of get_ancestor / get_raw_ancestor",
     "C13-filter-case-insensitive-dfa-only": "exit 0 (how FilterLayer::layer configures the automaton was an assumption) -> glue.verus.rs contract on FilterLayer::layer over a settings-recording builder stub",
     "C10-hist-prefix-separator-in-writer": "same (written against C10, the change is in writer.rs: reported by C09's check; C10's own check does not include the writer)",
-    "C17-new-span-merges-current-not-parent": "exit 2 (Context stub lacked lookup_current) -> stub widened",
-    "C17-filter-sees-empty-value": "exit 2 (closure annotation keyed to parameter names) -> annotation by position",
+    "C17-new-span-merges-current-not-parent": "exit 2 expected, not run (Context stub lacked lookup_current) -> stub widened",
+    "C17-filter-sees-empty-value": "exit 2 expected, not run (closure annotation keyed to parameter names) -> annotation by position",
 }
 rows = []
 for f in sorted(glob.glob(os.path.join(os.path.dirname(os.path.dirname(os.path.abspath(__file__))), "seeded", "*", "meta.json"))):
@@ -36,7 +38,19 @@ for f in sorted(glob.glob(os.path.join(os.path.dirname(os.path.dirname(os.path.a
     why = next((l[:140] for l in lines if l.startswith("UNDECIDED")), "")
     verdict = "caught" if c.get("detected") else ("undecided (exit 2)" if chk.get("exit") == 2 else "missed (exit 0)")
     rows.append((c["id"], m.get("breaks_property"), (m.get("summary") or "")[:150].replace("|", "/"), verdict, ob or why, FIRST.get(c["id"], "same")))
-print("| seeded change | property | what it does | verdict now | failing obligation / reason | first run, and what changed |")
-print("|---|---|---|---|---|---|")
+import sys
+lines = ["| seeded change | property | what it does | verdict now | failing obligation / reason | first run, and what changed |", "|---|---|---|---|---|---|"]
 for r in rows:
-    print("| " + " | ".join(str(x).replace("\n", " ") for x in r) + " |")
+    lines.append("| " + " | ".join(str(x).replace("\n", " ") for x in r) + " |")
+caught = sum(1 for r in rows if r[3] == "caught"); first = sum(1 for r in rows if r[3] == "caught" and r[5].startswith("same"))
+lines.append("")
+lines.append(f"{len(rows)} changes: {caught} reported by a registered check now ({first} of them already on the first run), "
+             f"{sum(1 for r in rows if r[3].startswith('undecided'))} undecided (exit 2), {sum(1 for r in rows if r[3].startswith('missed'))} missed (exit 0).")
+text = "\n".join(lines)
+if "--update-design" in sys.argv:
+    p = os.path.join(os.path.dirname(os.path.dirname(os.path.abspath(__file__))), "DESIGN.md")
+    d = open(p).read()
+    a, b = d.index("<!-- SEED-TABLE-BEGIN -->") + len("<!-- SEED-TABLE-BEGIN -->"), d.index("<!-- SEED-TABLE-END -->")
+    open(p, "w").write(d[:a] + "\n" + text + "\n" + d[b:])
+else:
+    print(text)
